@@ -34,7 +34,7 @@ def run(ctx):
     # embedded as operands: buffer sizes and package elements
     import amlgen
     emb = []
-    for n in [0, 1, 2, 254, 255, 256, 257, 4095, 4096, 65535, 65536, 65537]:
+    for n in [0, 1, 2, 254, 255, 256, 257, 4095, 4096, 65535, 65536, 65537, 70000, 131072, 131073, 200000]:
         emb.append({"fam": "aml", "tree": {"t": "BufferFill", "n": n, "b": 7}, "arities": []})
     for v in [0, 1, 2, 255, 256, 65535, 65536, (1 << 32) - 1, 1 << 32, (1 << 64) - 1]:
         for ty, w in (("u8", 1), ("u16", 2), ("u32", 4), ("u64", 8), ("usize", 8)):
